@@ -95,6 +95,7 @@ def correspond(ctx, scale):
     rng = ctx.rng
     failures, samples = [], []
     ev = nt = 0
+    nt_seen = set()      # distinct (logits, uniforms) tokens on which the noise changed the winner
     dist = {'stochastic_calls': 0, 'tokens_checked': 0, 'race_goals': 0, 'discarded_extreme_u': 0, 'fallback_cases': 0, 'noise_changed_winner': 0, 'frequency_cases': 0, 'draws': 0}
     goals, gmeta = {}, {}
     gid = 0
@@ -165,7 +166,7 @@ def correspond(ctx, scale):
             finally:
                 torch.set_default_dtype(old_default)
                 restore()
-            ev += 1
+            dist['module_calls'] = dist.get('module_calls', 0) + 1
             for pos, ent in [(i, e) for i, e in enumerate(log) if e[0] == 'sample']:
                 _, logits, skw, ind, n0, cb_e = ent
                 # the temperature in force for THIS layer: the per-call one if given, else the one configured on this layer's codebook (layers may differ)
@@ -181,6 +182,7 @@ def correspond(ctx, scale):
                     dist['fallback_cases'] += 1
                     if noises:
                         failures.append({'key': 'noise-in-deterministic-mode', 'what': f'{kw} train={train} T={Teff}: gumbel noise was drawn although selection must be deterministic', 'case': dict(kw=kw, T=Teff, train=train)})
+                    ev += L2.shape[0]          # one evaluation = one token whose selection is checked
                     for t in range(L2.shape[0]):
                         qcases.append(f'(if Nat.eqb (argmax_first Q_ops {qvec(L2[t].double().tolist())}) {int(I2[t])} then 0 else 1)%nat')
                         qmeta.append(dict(kw=kw, T=Teff, train=train, token=t, logits=L2[t].tolist(), idx=int(I2[t])))
@@ -206,10 +208,13 @@ def correspond(ctx, scale):
                         dist['discarded_extreme_u'] += 1
                         continue
                     dist['tokens_checked'] += 1
+                    ev += 1
                     det = max(range(K), key=lambda i: ls[i])
                     changed = det != j
                     dist['noise_changed_winner'] += changed
-                    nt += changed
+                    if changed:
+                        nt_seen.add((tuple(ls), tuple(us), j))
+                        nt = len(nt_seen)
                     if not (0 <= j < K):
                         failures.append({'key': 'index-range', 'what': f'sampled index {j} out of range', 'case': dict(kw=kw)})
                         continue
@@ -283,7 +288,7 @@ def correspond(ctx, scale):
                              'case': dict(K=K, T=T, cosine=cosine, counts=cnt.tolist(), p=p.tolist())})
     return {'evaluations': ev, 'distinct_nontrivial': nt,
             'rule': 'VectorQuantize and ResidualVQ layers, Euclidean / cosine, configured and per-call temperatures {0.1, 0.5, 1, 2, 0, -1}, train / eval, flag on / off: for every token the selected index must win every pairwise Gumbel race for the captured uniforms '
-                    '(one `interval`-certified inequality per rival), deterministic configurations must return the first maximal logit (evaluated in Coq over Q); 1e5 draws per frequency case vs the closed form; non-trivial = the noise changed the winner',
+                    '(one `interval`-certified inequality per rival), deterministic configurations must return the first maximal logit (evaluated in Coq over Q); 1e5 draws per frequency case vs the closed form; one evaluation = one token whose selected index is checked (or one frequency case); non-trivial = a distinct (logits, uniforms) token on which the noise changed the winner',
             'samples': samples, 'failures': failures, 'distribution': dist}
 
 
